@@ -1,6 +1,6 @@
 """C12 The decompose transform reaches the target gate set without changing the circuit."""
 from vlib import *
-import math
+import math, re
 import numpy as np
 import exactsim
 
@@ -189,6 +189,9 @@ CORPUS = [
      "gate_set": {"kind": "named", "name": "ROTATIONS_PLUS_CNOT"}, "nww": 0, "strict": True, "mode": "transform", "cols": [0, 3]},
     {"ops": [{"t": "pow", "z": 2, "b": {"t": "g", "n": "U2", "p": [math.pi / 2, math.pi], "w": [0]}}], "graph": True,
      "gate_set": {"kind": "named", "name": "ROTATIONS_PLUS_CNOT"}, "nww": 0, "strict": True, "mode": "transform", "cols": [0, 1]},
+    # found by this generator: Pow(Identity, 0) with the graph enabled crashes while the graph is built
+    {"ops": [{"t": "pow", "z": 0, "b": {"t": "g", "n": "Identity", "p": [], "w": [0]}}, {"t": "g", "n": "Hadamard", "p": [], "w": [0]}], "graph": True,
+     "gate_set": {"kind": "named", "name": "ROTATIONS_PLUS_CNOT"}, "nww": 0, "strict": True, "mode": "transform", "cols": [0, 1]},
     # docstring examples
     {"ops": [{"t": "g", "n": "IsingXX", "p": [2 * math.atan2(3, 4)], "w": [0, 1]}], "graph": False, "gate_set": {"kind": "names", "names": ["CNOT", "RX"]},
      "nww": 0, "strict": True, "mode": "transform", "cols": [0, 1, 2, 3]},
@@ -269,6 +272,9 @@ def run(ctx):
             hist["errors_by_type"][r["etype"]] = hist["errors_by_type"].get(r["etype"], 0) + 1
             if r["etype"] not in ("RecursionError", "DecompositionError", "DecompositionUndefinedError"):
                 hist["non_decomposition_errors"] += 1
+                msg = re.sub(r"[0-9.]+", "#", r["detail"])[:80]
+                ctx.violation("crash:" + msg, {"case": c, "input": r["in"], "exception": r["detail"]},
+                              what="decompose on a valid circuit failed with an exception that is not a decomposition error (RecursionError / DecompositionError / DecompositionUndefinedError)")
         # ---- (a) target gate set
         for lo in r.get("leftovers", []):
             if lo["class"] in ("warned-globalphase", "warned-nodecomp", "graph-warned-nonstrict"):
